@@ -359,7 +359,97 @@ class Model:
                     sc = self.classes.get(sub)
                     if sc is not None and m in sc.methods:
                         out.add(sc.methods[m].qualname)
+                # a typing.Protocol has no nominal subclasses: every class that provides all its methods implements it
+                impls = self.protocol_implementers(rc)
+                rv = call.func.value
+                table = self._registry_table_of(mod, rv) if impls else None
+                if table is not None:
+                    # `<cls>.<table>[key].m()`: only what a registration decorator put in the table can be there
+                    members = self.registry_members(table)
+                    if members is not None:
+                        impls = [i for i in impls if i in members]
+                for impl in impls:
+                    f = self.effective(impl, m)
+                    if f is not None:
+                        out.add(f.qualname)
         return sorted(out)
+
+    def _registry_table_of(self, mod: ModuleInfo, rv: ast.AST) -> str | None:
+        """`X.table[k]`, or a local only ever bound to `X.table[k]` / `X.table[k].factory(...)`: the table name."""
+        if isinstance(rv, ast.Subscript) and isinstance(rv.value, ast.Attribute):
+            return rv.value.attr
+        if isinstance(rv, ast.Name):
+            f = self.enclosing_func(mod, rv)
+            if f is None:
+                return None
+            tables: set[str | None] = set()
+            for n in walk_no_nested(f.node):
+                if isinstance(n, ast.Assign) and any(isinstance(t, ast.Name) and t.id == rv.id for t in n.targets):
+                    v = n.value
+                    if isinstance(v, ast.Call) and isinstance(v.func, ast.Attribute):
+                        v = v.func.value
+                    tables.add(v.value.attr if isinstance(v, ast.Subscript) and isinstance(v.value, ast.Attribute) else None)
+            if len(tables) == 1:
+                return next(iter(tables))
+        return None
+
+    def registry_members(self, table: str) -> set[str] | None:
+        """Classes stored in the class-level dict `table` when every store is `<x>.table[k] = <parameter>` inside a
+        registration function used as a class decorator; None when the table is filled some other way."""
+        cache = self.__dict__.setdefault('_registry_members', {})
+        if table in cache:
+            return cache[table]
+        regs: set[str] = set()
+        ok = True
+        found = False
+        for f in self.funcs.values():
+            for n in walk_no_nested(f.node):
+                tgts = n.targets if isinstance(n, ast.Assign) else ([n.target] if isinstance(n, (ast.AugAssign, ast.AnnAssign)) else [])
+                for t in tgts:
+                    if isinstance(t, ast.Subscript) and isinstance(t.value, ast.Attribute) and t.value.attr == table:
+                        found = True
+                        params = {a.arg for a in f.node.args.args}
+                        if isinstance(n, ast.Assign) and isinstance(n.value, ast.Name) and n.value.id in params:
+                            regs.add((f.parent or f).qualname)
+                        else:
+                            ok = False
+        out: set[str] | None = None
+        if found and ok and regs:
+            out = set()
+            for qn, c in self.classes.items():
+                for d in c.node.decorator_list:
+                    if not isinstance(d, ast.Call):
+                        continue
+                    tg = set(self.callees(c.module, d))
+                    if isinstance(d.func, ast.Attribute) and not tg:
+                        # resolve <Class>.<method> through the imports of the module
+                        head = dotted(d.func.value) or ''
+                        full = c.module.imports.get(head.split('.')[0])
+                        cq = (full + head[len(head.split('.')[0]):]) if full else (c.module.classes[head].qualname if head in c.module.classes else None)
+                        e = self.effective(cq, d.func.attr) if cq in self.classes else None
+                        if e is not None:
+                            tg.add(e.qualname)
+                    if tg & regs:
+                        out.add(qn)
+        cache[table] = out
+        return out
+
+    def protocol_implementers(self, cls_qn: str) -> list[str]:
+        cache = self.__dict__.setdefault('_proto_impl', {})
+        if cls_qn in cache:
+            return cache[cls_qn]
+        out: list[str] = []
+        ci = self.classes.get(cls_qn)
+        if ci is not None and any((dotted(b) or '').rsplit('.', 1)[-1] == 'Protocol' for b in ci.node.bases):
+            wanted = [k for k in ci.methods if not k.startswith('__')]
+            if wanted:
+                for qn, c in self.classes.items():
+                    if qn == cls_qn or any((dotted(b) or '').rsplit('.', 1)[-1] == 'Protocol' for b in c.node.bases):
+                        continue
+                    if all(self.effective(qn, k) is not None for k in wanted):
+                        out.append(qn)
+        cache[cls_qn] = out
+        return out
 
     # ------------------------------------------------------------------ iteration
     def iter_funcs(self, prefix: str = '') -> Iterator[FuncInfo]:
